@@ -26,10 +26,12 @@ const (
 	LElem         // element of a backing array: Heap[Base][Idx]
 	LCell         // cell: Heap[Base]
 	LSub          // element Idx of an array value stored at Parent
+	LPend         // element Idx of a pending literal array (not yet in the heap)
 )
 
 type Loc struct {
 	Kind   int
+	pend   *pendingArr
 	Parent *Loc
 	Heap   string
 	Base   string
@@ -68,6 +70,12 @@ type Obligation struct {
 	Secs   float64
 	Output string
 	Tier   string
+	// Splits: for every control-flow merge that dominates the obligation, the
+	// reach conditions of its incoming edges. The solver may be asked to prove
+	// the obligation once per combination of edges (a case split it does not
+	// always find by itself).
+	Splits [][]string
+	Dead   []string // reachability cover: the points found unreachable
 }
 
 type deferred struct {
@@ -104,6 +112,11 @@ type Gen struct {
 	siteOrd map[string]int
 
 	noRefine    bool
+	variant     int
+	deadEdge   map[[2]int]bool // path variant: CFG edges (from, to block index) treated as not taken
+	curSplits  [][]string
+	blockSplits map[*ssa.BasicBlock][][]string
+	pendArr    map[*ssa.Alloc]*pendingArr
 	samples     []string // ghost: values of the random draws made so far (calls to `sampler` callees)
 	frameTags  map[string]bool // loop-head version tags whose lazily declared heaps get the auto frame
 	frameDone   map[string]bool
@@ -198,6 +211,7 @@ func (g *Gen) check(kind, what, cond, desc string) {
 		Form: implies(g.cur, cond),
 		Pos:  g.P.fset.Position(g.curPos),
 		Desc: desc,
+		Splits: g.curSplits,
 	}
 	g.obls = append(g.obls, ob)
 	if !g.noRefine {
@@ -501,6 +515,9 @@ func (g *Gen) heapSortOfLoc(l *Loc) string {
 }
 
 func (g *Gen) loadLoc(st *State, l *Loc) Val {
+	if l.Kind == LPend {
+		return Val{T: sx("select", l.pend.term, l.Idx), S: l.S, G: l.G}
+	}
 	if l.Kind == LSub {
 		pv := g.loadLoc(st, l.Parent)
 		return Val{T: sx("select", pv.T, l.Idx), S: l.S, G: l.G}
@@ -517,6 +534,10 @@ func (g *Gen) loadLoc(st *State, l *Loc) Val {
 }
 
 func (g *Gen) storeLoc(st *State, l *Loc, v string) {
+	if l.Kind == LPend {
+		l.pend.term = sx("store", l.pend.term, l.Idx, v)
+		return
+	}
 	if l.Kind == LSub {
 		pv := g.loadLoc(st, l.Parent)
 		g.storeLoc(st, l.Parent, sx("store", pv.T, l.Idx, v))
